@@ -185,7 +185,10 @@ def check(case, ctx):
         return np.array(out)
 
     rank_def = bool((sf > 1e-9 * sf.max()).sum() < min(n, m))
-    if method == "cutoff" and np.any(np.abs(np.r_[s1, s2, sf][:, None] - scaled[None, :]) < 1e-9 * sf.max()):
+    allsv = np.r_[s1, s2, sf]
+    # numerically null singular values are excluded by the rank rule whatever alpha is: only the others can sit at a cut-off
+    allsv = allsv[allsv > 30 * max(X.shape) * EPS * sf.max()]
+    if method == "cutoff" and allsv.size and np.any(np.abs(allsv[:, None] - scaled[None, :]) < 1e-9 * sf.max()):
         ctx.skip("ambiguous: singular value at a cut-off alpha")
         return
     lo, hi = allcv(1 / 30), allcv(30)
